@@ -328,7 +328,7 @@ func decodeOnce(c *Ctx, e decodeEntry, in []byte, followUps bool) {
 	}
 	// judged per call: the heap must be above the mark AND this call must have grown it (what earlier layers of the same shard
 	// obtained, or a collector that lags on a loaded machine, is not this input's doing)
-	if ms1.HeapSys > heapHighWater && ms1.HeapSys-ms0.HeapSys >= heapCallGrowth && !heapFlagged {
+	if ms1.HeapSys > heapHighWater && ms1.HeapSys > ms0.HeapSys && ms1.HeapSys-ms0.HeapSys >= heapCallGrowth && !heapFlagged {
 		heapFlagged = true
 		c.Fail("memory|"+decoderFamily(e.Name)+"|heap-high-water", fmt.Sprintf("%s on a %d byte input drove the heap obtained from the OS to %d MiB (limit %d MiB)", e.Name, len(in), ms1.HeapSys>>20, heapHighWater>>20),
 			map[string]any{"entry": e.Name, "input_len": len(in), "heap_sys": ms1.HeapSys, "input_prefix": clipB(in[:minInt(len(in), 200)])})
